@@ -7,7 +7,7 @@ from sqlparse import tokens as T
 RULE = ('grammar scripts (queries, DML, DDL, CTE; comments in any inter-token position) x combinations of the layout options (all boolean combinations in thorough, sampled in quick; '
         'integer options from pools); non-trivial = distinct (script, option set) with at least one layout option on')
 ASSUMPTIONS = ['lexical bridge: the output is re-lexed by the real lexer', 'filters model tied by S-FMT (full format pipeline) on the same cases']
-PARTIAL = ['reindent / reindent_aligned preservation is not a theorem (modelled + S-FMT + oracle); strip_whitespace and use_space_around_operators are theorems over the model']
+PARTIAL = ['all four layout filters are proved to preserve the significant leaves at tree level; the lexical bridge (the serialized output re-lexes to the same tokens / same statement count) is oracle + S-FMT']
 BOOLS = ['reindent', 'reindent_aligned', 'strip_whitespace', 'use_space_around_operators', 'indent_tabs', 'indent_after_first', 'indent_columns', 'comma_first', 'compact']
 INTS = {'indent_width': [1, 2, 3, 4, 8], 'wrap_after': [0, 1, 10, 40, 80]}
 
